@@ -522,6 +522,43 @@ def family_terminating(rng, count):
     return out
 
 
+def family_twostep(rng, count):
+    """The same pair of source states (in two regions) fires twice: first both transitions stay inside their regions
+    (internal / self-loop, event 1), then other transitions of the same two states fire (event 2), one of which may
+    leave the orthogonal state: whatever was learnt about the pair in the first step says nothing about the second."""
+    out = []
+    while len(out) < count:
+        kind = ['compound', 'basic', 'orthogonal', 'compound', 'basic', 'basic', 'compound', 'basic', 'basic']
+        #        1 root      2 out    3 O           4 r1        5 X      6 X2     7 r2        8 Y      9 Y2
+        parent = [0, 1, 1, 3, 4, 4, 3, 7, 7]
+        initial = [3, 0, 0, 5, 0, 0, 8, 0, 0]
+        if rng.random() < 0.4:
+            kind.append('basic')
+            parent.append(3)
+            initial.append(0)
+        n = len(kind)
+        stay = lambda s: rng.choice([0, s])
+        pairs = [(5, stay(5), 1), (8, stay(8), 1),
+                 (5, rng.choice([2, 6, 6, 3]), 2), (8, rng.choice([9, 9, 2, 1]), 2),
+                 (6, 5, 3), (9, 8, 3), (2, 3, 3)]
+        perm = list(range(1, n + 1))
+        rng.shuffle(perm)
+        m = dict(zip(range(1, n + 1), perm))
+        m[0] = 0
+        k2, p2, i2 = [None] * n, [0] * n, [0] * n
+        for s in range(1, n + 1):
+            k2[m[s] - 1] = kind[s - 1]
+            p2[m[s] - 1] = m[parent[s - 1]]
+            i2[m[s] - 1] = m[initial[s - 1]]
+        c = new_chart(k2, p2, i2, [0] * n)
+        c['trans'] = [mk_trans(m[a], m[b], e, 0, 'none', 0, desc(incx=rng.choice([0, 1]))) for (a, b, e) in pairs
+                      if wf_transition(c, m[a], m[b])]
+        c['events'] = [1, 2, 3]
+        if wf(c) and len(c['trans']) >= 5:
+            out.append(c)
+    return out
+
+
 def family_hist(rng, count, nmin=6, nmax=9, extra=6):
     """Larger charts with history states below orthogonal/compound ancestors; each transition has its
     own event.  Transitions into every history state from outside, out of its ancestors, and random ones."""
